@@ -159,7 +159,7 @@ func (c *FnCtx) calleeEnv(ci *calleeInfo, args []Term, results []Term, st, old *
 
 func ghostNames(spec *FuncSpec) map[string]bool {
 	// names a caller cannot interpret: the callee's logical variables and its internal call results
-	m := map[string]bool{"result_of": true}
+	m := map[string]bool{"result_of": true, "after": true}
 	for _, g := range spec.Ghost {
 		m[g.Name] = true
 	}
@@ -578,7 +578,7 @@ func (c *FnCtx) call(ins ssa.Instruction, cc *ssa.CallCommon, val ssa.Value) {
 	for i, rt := range rtypes {
 		c.assume(c.tyInv(results[i], rt))
 	}
-	c.callRes[ci.name] = append(c.callRes[ci.name], callSiteRes{results, rtypes})
+	c.callRes[ci.name] = append(c.callRes[ci.name], callSiteRes{results, rtypes, c.snapshot()})
 	// copy-out
 	for i, l := range locs {
 		if l == nil {
